@@ -325,8 +325,10 @@ def op_param_map(method: str, f: Any) -> dict:
 def build_operator(method: str, f: Any, shape: dict, values: dict) -> tuple:
     """(callable operator-factory, args, kwargs) of the piped form"""
     if method == "do":
-        # Observable.do(on_next, on_error, on_completed) <-> ops.do(Observer(on_next, on_error, on_completed))
-        return ops.do, [Observer(values.get("on_next"), values.get("on_error"), values.get("on_completed"))], {}
+        # Observable.do(on_next, on_error, on_completed) <-> ops.do_action(on_next, on_error, on_completed): the method's own
+        # documentation names this pipe form (ops.do(Observer(...)) shares ONE stateful observer object between subscriptions,
+        # so it differs for a second subscriber - by construction of the comparison, not of the library)
+        return ops.do_action, [values.get("on_next"), values.get("on_error"), values.get("on_completed")], {}
     pm = op_param_map(method, f)
     op_names = set(inspect.signature(getattr(ops, method)).parameters)
     declared = [p.name for p in params_of(f) if p.kind is not p.VAR_POSITIONAL]
@@ -362,7 +364,9 @@ def run_side(side: str, method: str, f: Any, shape: dict, seed: int, variant: in
             supplied.add(p.name)
     ctx = Ctx(lab, r, method, supplied)
     ov = RC.OVERRIDES.get(method, {})
-    ctx.late = bool(ov.get("late"))
+    # a late second subscriber: always for the multicast family, and in every third variant for every other method (what the method
+    # binds at CALL time, e.g. an iterator, must not be shared between the subscriptions of its result)
+    ctx.late = bool(ov.get("late")) or variant % 3 == 2
     S.lab, S.ctx = lab, ctx
     source = ov.get("src", RC.src_default)(ctx)
     values: dict = {}
